@@ -37,6 +37,36 @@ def showErr : PErr → String
   | .badNumber => "bad-number" | .unknownKeyword => "unknown-keyword" | .emptyPoint => "empty-point"
   | .trailing => "trailing-text" | .fuel => "fuel"
 
+/-- split a token list at the separator `;` -/
+def splitSemi (t : Tok) : List Tok :=
+  let rec go : Tok → Tok → List Tok → List Tok
+    | [], cur, acc => (cur.reverse :: acc).reverse
+    | x :: r, cur, acc => if x = ";" then go r [] (cur.reverse :: acc) else go r (x :: cur) acc
+  go t [] []
+
+def pGeoms : Nat → Tok → Option (List BGeom)
+  | 0, _ => some []
+  | n+1, t => do let (g, t) ← Proto.pGeom 64 t; let gs ← pGeoms n t; pure (g :: gs)
+
+/-- one element of a batch: the immediate copy and the kept slice after the whole batch -/
+def judgeKept (g : BGeom) (res : Tok) : Option String :=
+  let inGuard := supported g && everyMemberNonEmpty g && allFinite Dec.isFiniteBits g
+  match res with
+  | ["err"] => if supported g then some "encoder-rejected-supported-type" else none
+  | ["ok", c, k] =>
+    match hexToChars ((c.drop 1).toString), hexToChars ((k.drop 1).toString) with
+    | some ctxt, some ktxt =>
+      if !supported g then some "unsupported-type-was-encoded"
+      else if ctxt != ktxt then
+        some s!"encode-result-aliased: returned={String.ofList ctxt} after-later-calls={String.ofList ktxt}"
+      else if inGuard then
+        match parse Dec.toBits ktxt with
+        | .error e => some s!"kept-result-rejected-by-OGC-parser:{showErr e}"
+        | .ok g' => if Geom.beq g' g then none else some "kept-result-parses-to-different-geometry"
+      else none
+    | _, _ => some "bad-hex"
+  | _ => some ("encoder-" ++ " ".intercalate res)
+
 def judgeLine (line : String) : String :=
   let (lhs, rhs) := splitArrow (tokens line)
   match lhs with
@@ -84,6 +114,20 @@ def judgeLine (line : String) : String :=
                 else s!"DIFF {cls} model-text-differs want={String.ofList mt} got={String.ofList txt}"
               | .error _ => s!"DIFF {cls} model-errs-impl-encodes"
       | _ => s!"SPEC {cls} encoder-{" ".intercalate res}"
+  | "batch" :: n :: gt =>
+    match n.toNat? with
+    | none => "BAD batch"
+    | some k =>
+      match pGeoms k gt with
+      | none => "BAD parse"
+      | some gs =>
+        let rs := splitSemi (rhs.takeWhile (· ≠ "|"))
+        if rs.length != gs.length then s!"SPEC batch harness-result-{" ".intercalate rhs}"
+        else
+          let bad := (gs.zip rs).zipIdx.filterMap fun ((g, r), i) => (judgeKept g r).map fun w => s!"call#{i}({geomClass g}):{w}"
+          match bad with
+          | [] => s!"OK batch"
+          | w :: _ => s!"SPEC batch {w}"
   | ["num", t] =>
     -- cross-validation of the spec-side decimal conversion against strconv.ParseFloat
     let mine := match Dec.toBits t.toList with | some b => "ok " ++ u64Hex b | none => "err"
